@@ -111,6 +111,39 @@ theorem c05_temp_pairs_order_free (L₁ L₂ : Layout String Unit) (norm : Strin
     exec L₁ (allocForTempPairsP norm existing count) = exec L₂ (allocForTempPairsP norm existing count) :=
   c05_lookup_only_pair L₁ L₂ _
 
+/-- **Type table** (`type_index` / `collect_decl_types` with `type_map`, reserve-then-fill, over
+arbitrary — also recursive — type graphs): the emitted table does not depend on the layout. -/
+theorem c05_type_index_order_free (L₁ L₂ : Layout Nat Nat) (children : Nat → List Nat) (fuel : Nat)
+    (decls : List Nat) :
+    exec L₁ (collectTypesP children fuel decls []) = exec L₂ (collectTypesP children fuel decls []) :=
+  c05_lookup_only_pair L₁ L₂ _
+
+/-- **Reference table, string tables, debug file labels** (`ref_index_for` with `ref_map`,
+`StringInterner::intern` for `strings` and `debug_strings`, `file_path_index` with
+`file_path_indices`), for any interleaving of requests: indices handed out and all three emitted
+tables do not depend on the layout of the four maps. -/
+theorem c05_ref_string_tables_order_free (L₁ L₂ : Layout EKey Nat) (label : Nat → String)
+    (reqs : List EncReq) :
+    (exec L₁ (encRequestsP label reqs {})).1 = (exec L₂ (encRequestsP label reqs {})).1 ∧
+    (exec L₁ (encRequestsP label reqs {})).2.refEntries = (exec L₂ (encRequestsP label reqs {})).2.refEntries ∧
+    (exec L₁ (encRequestsP label reqs {})).2.strings = (exec L₂ (encRequestsP label reqs {})).2.strings ∧
+    (exec L₁ (encRequestsP label reqs {})).2.debugStrings = (exec L₂ (encRequestsP label reqs {})).2.debugStrings := by
+  rw [c05_lookup_only_pair L₁ L₂]
+  exact ⟨rfl, rfl, rfl, rfl⟩
+
+/-- **Duplicate-name detection** of `build_runtime_from_source_files` (four `HashSet`s): which
+definition is reported as duplicate does not depend on the layout. -/
+theorem c05_duplicate_names_order_free (L₁ L₂ : Layout String Unit) (norm : String → String)
+    (names : List String) :
+    exec L₁ (firstDuplicateP norm names) = exec L₂ (firstDuplicateP norm names) :=
+  c05_lookup_only_pair L₁ L₂ _
+
+/-- **Hierarchical I/O addresses** (`IoInterface.hierarchical`): every sequence of reads and
+writes returns the same values under every layout. -/
+theorem c05_hierarchical_io_order_free (L₁ L₂ : Layout (List Nat) Int) (ops : List HierOp) :
+    exec L₁ (hierP ops) = exec L₂ (hierP ops) :=
+  c05_lookup_only_pair L₁ L₂ _
+
 /-- Every operation that the anchored Rust files apply to a `std` `HashMap`/`HashSet` binding is
 order-free (table regenerated from the sources by `checks/c05_scan.py` on every run).  An added
 `.iter()/.keys()/.values()/.drain()/for … in`/unrecognised use breaks this proof and the failing
